@@ -266,3 +266,13 @@ package par2
 //@     invariant len(repairedPaths) == gWritesOK - old(gWritesOK)
 //@   loop 4
 //@     invariant len(repairedPaths) == gWritesOK - old(gWritesOK)
+
+// The adapters to the real filesystem pass their arguments and results straight through.
+//@ func (defaultFileIO).WriteFile
+//@   props C02 C14 C18
+//@   assert-call io/ioutil.WriteFile : arg0 == path && sameSlice(arg1, data)
+//@   ensures result == lastcall("io/ioutil.WriteFile")
+//@ func (defaultFileIO).ReadFile
+//@   props C02 C18
+//@   assert-call io/ioutil.ReadFile : arg0 == path
+//@   ensures result1 == lastcall("io/ioutil.ReadFile", 1)
